@@ -675,6 +675,6 @@ func main() {
 		Gen:    gen,
 		Exec:   exec,
 		Corpus: corpus(),
-		N:      map[string]int{"quick": 6000, "thorough": 200000},
+		N:      map[string]int{"quick": 6000, "thorough": 120000},
 	})
 }
